@@ -18,6 +18,8 @@ import pathlib
 
 os.environ.setdefault("NUMBA_DISABLE_JIT", "1")
 
+import re
+
 import numpy as np
 
 GEN = pathlib.Path(__file__).resolve().parent.parent.parent / "lean" / "Generated"
@@ -63,6 +65,8 @@ class Expr:
 
     @staticmethod
     def of(x):
+        if isinstance(x, np.ndarray) and x.ndim == 0:
+            x = x.item()
         if isinstance(x, Expr):
             return x
         c = float(x)
@@ -168,6 +172,35 @@ class NpShim:
     def arctan2(self, y, x):
         y, x = Expr.of(y), Expr.of(x)
         return Expr(f"(Ratan2 {y.s} {x.s})", lambda env, a=y, b=x: math.atan2(a.v(env), b.v(env)))
+
+    def sqrt(self, x):
+        if isinstance(x, Expr):
+            return Expr(f"(Rsqrt {x.s})", lambda env, a=x: math.sqrt(a.v(env)))
+        if isinstance(x, (int, float)) and float(x) == 2.0:
+            return Expr("sqrt2", lambda env: math.sqrt(2.0))    # the model's name for `np.sqrt(2)`
+        return self._real.sqrt(x)
+
+    def where(self, c, a, b):
+        """elementwise `np.where(c, a, b)` with symbolic truthiness: an entry is falsy iff it is zero"""
+        c, a, b = self._real.asarray(c, dtype=object), self._real.asarray(a, dtype=object), self._real.asarray(b, dtype=object)
+        out = self._real.empty(c.shape, dtype=object)
+        for idx in self._real.ndindex(c.shape):
+            ci = c[idx]
+            if isinstance(ci, Expr):
+                ai, bi = Expr.of(a[idx]), Expr.of(b[idx])
+                out[idx] = Expr(f"(if (({ci.s} ≤ 0) ∧ (0 ≤ {ci.s})) then {bi.s} else {ai.s})",
+                                lambda env, ci=ci, ai=ai, bi=bi: (bi.v(env) if ci.v(env) == 0 else ai.v(env)))
+            else:
+                out[idx] = a[idx] if ci else b[idx]
+        return out
+
+    def triu(self, m, k=0):
+        m = self._real.asarray(m, dtype=object)
+        out = self._real.empty(m.shape, dtype=object)
+        for i in range(m.shape[0]):
+            for j in range(m.shape[1]):
+                out[i, j] = m[i, j] if j - i >= k else 0.0
+        return out
 
     @property
     def pi(self):
@@ -447,5 +480,100 @@ def selfcheck_velocity(traced, n=30, seed=0):
                 want = None
             got = opt_tree_eval(tree, kind, env)
             if (want is None) != (got is None) or (want is not None and not np.allclose(got, want, rtol=1e-12, atol=1e-300)):
+                bad.append(name)
+    return sorted(set(bad))
+
+
+# ------------------------------------------------------------------ tensors.py
+class SymArray(np.ndarray):
+    """object array of symbolic scalars; a cast to a floating dtype is the identity on symbolic values"""
+
+    def astype(self, dtype, *a, **k):
+        if np.dtype(dtype).kind == "f":
+            return self.copy()
+        return super().astype(dtype, *a, **k)
+
+
+def _sym_nd(name, shape):
+    a = np.empty(shape, dtype=object).view(SymArray)
+    for idx in np.ndindex(shape):
+        a[idx] = Expr("(" + name + " " + " ".join(str(i) for i in idx) + ")", lambda env, idx=idx, name=name: env[name][idx])
+    return a
+
+
+def trace_tensors():
+    from pydrex import tensors as T
+
+    real_np = T.np
+    T.np = NpShim(real_np)
+    out = {}
+    try:
+        M, Tn, v = _sym_nd("M", (6, 6)), _sym_nd("T", (3, 3, 3, 3)), _sym_nd("v", (21,))
+        out["traced_voigtToTensor"] = ("(M : Mat6)", explore(lambda: T.voigt_to_elastic_tensor(M)))
+        out["traced_tensorToVoigt"] = ("(T : Ten4)", explore(lambda: T.elastic_tensor_to_voigt(Tn)))
+        out["traced_matrixToVector"] = ("(M : Mat6)", explore(lambda: T.voigt_matrix_to_vector(M)))
+        out["traced_vectorToMatrix"] = ("(v : Vec21)", explore(lambda: T.voigt_vector_to_matrix(v)))
+        out["traced_voigtDilat"] = ("(M : Mat6)", explore(lambda: T.voigt_decompose(M)[0]))
+        out["traced_voigtDeviat"] = ("(M : Mat6)", explore(lambda: T.voigt_decompose(M)[1]))
+        Q = _sym_nd("Q", (3, 3))
+        out["traced_rotate"] = ("(T : Ten4) (Q : Mat3)", explore(lambda: T.rotate(Tn, Q)))
+        for nm in ("mono", "ortho", "tetr", "hex"):
+            out[f"traced_{nm}Project"] = ("(v : Vec21)", explore(lambda nm=nm: getattr(T, nm + "_project")(v)))
+    finally:
+        T.np = real_np
+    return out
+
+
+_TYPES = {(6, 6): ("Mat6", ["i", "j"]), (3, 3): ("Mat3", ["i", "j"]), (3, 3, 3, 3): ("Ten4", ["p", "q", "r", "s"]), (21,): ("Vec21", ["k"])}
+
+
+def emit_tensors(traced, path=None):
+    lines = ["-- GENERATED on every run by harness/trace/tracer.py from /repo/src/pydrex/tensors.py -- do not edit",
+             "import ModelR.Tensors", "noncomputable section", "namespace ModelR.Tensors", ""]
+    for name, (params, tree) in traced.items():
+        assert tree[0] == "leaf", "tensor kernels are straight-line"
+        arr = np.asarray(tree[1], dtype=object)
+        ty, vars_ = _TYPES[arr.shape]
+        entries = {idx: Expr.of(arr[idx]).s for idx in np.ndindex(arr.shape)}
+        if sum(len(e) for e in entries.values()) > 100000:   # large kernels: one definition per entry keeps unfolding cheap
+            binders = params
+            args = " ".join(w for w in re.findall(r"\((.*?) :", params)) 
+            for idx, e in entries.items():
+                lines.append(f"def {name}_{''.join(str(i) for i in idx)} {binders} : ℝ :=\n  {e}\n")
+            entries = {idx: f"{name}_{''.join(str(i) for i in idx)} {args}" for idx in entries}
+        cases = "\n".join("  | " + ", ".join(str(i) for i in idx) + " => " + e for idx, e in entries.items())
+        if ty == "Vec21":   # Lean's exhaustiveness check gives up on 21 Fin literals: match on the value, with an unreachable default
+            lines.append(f"def {name} {params} : {ty} := fun k => match k.val with\n{cases}\n  | _ => 0\n")
+        else:
+            lines.append(f"def {name} {params} : {ty} := fun {' '.join(vars_)} => match {', '.join(vars_)} with\n{cases}\n")
+    lines += ["end ModelR.Tensors", ""]
+    text = "\n".join(lines)
+    path = path or (GEN / "TracedTensors.lean")
+    if not path.exists() or path.read_text() != text:
+        path.write_text(text)
+    return text
+
+
+def selfcheck_tensors(traced, n=10, seed=0):
+    from pydrex import tensors as T
+
+    rng = np.random.default_rng(seed)
+    bad = []
+    for _ in range(n):
+        Msym = rng.normal(size=(6, 6))
+        Msym = Msym + Msym.T
+        Msym[0, 3] = Msym[3, 0] = 0.0       # a zero upper entry exercises the np.where branch
+        env = {"M": Msym, "T": rng.normal(size=(3, 3, 3, 3)), "v": rng.normal(size=21), "Q": rng.normal(size=(3, 3))}
+        env["v"][9] = 0.0
+        real = {"traced_voigtToTensor": T.voigt_to_elastic_tensor(env["M"]), "traced_tensorToVoigt": T.elastic_tensor_to_voigt(env["T"]),
+                "traced_matrixToVector": T.voigt_matrix_to_vector(env["M"]), "traced_vectorToMatrix": T.voigt_vector_to_matrix(env["v"]),
+                "traced_voigtDilat": T.voigt_decompose(env["M"])[0], "traced_voigtDeviat": T.voigt_decompose(env["M"])[1],
+                "traced_rotate": T.rotate(env["T"], env["Q"]),
+                "traced_monoProject": T.mono_project(env["v"]), "traced_orthoProject": T.ortho_project(env["v"]),
+                "traced_tetrProject": T.tetr_project(env["v"]), "traced_hexProject": T.hex_project(env["v"])}
+        for name, want in real.items():
+            arr = np.asarray(traced[name][1][1], dtype=object)
+            got = np.array([Expr.of(arr[idx]).v(env) for idx in np.ndindex(arr.shape)]).reshape(arr.shape)
+            if not np.allclose(got, want, rtol=1e-12, atol=1e-300):
                 bad.append(name)
     return sorted(set(bad))
